@@ -253,6 +253,21 @@ def run_instance(inst):
             viol("WRITE", f"write_trainables stored {list(after)} for trainable values {list(tv)} on rows {sel_rows}")
         else:
             res["counters"]["WRITE_ok"] = 1
+        # history: the module has been simulated before, then rows OUTSIDE the selection are edited with set(),
+        # then write_trainables: the edited rows must keep their values ("no row outside the selection changes")
+        outside = [int(r) for r in before.index if r not in sel_rows and not (isinstance(before.loc[r], float) and np.isnan(before.loc[r]))]
+        if outside:
+            m5 = build(name)
+            sel(m5).make_trainable(key, verbose=False)
+            jx.integrate(m5, params=m5.get_parameters(), t_max=0.03, **kw)
+            mark = 77.0 if key != "v" else -33.0
+            (m5.select(nodes=outside[:1]) if kind == "node" else m5.select(edges=outside[:1])).set(key, mark)
+            m5.write_trainables([{k_: jnp.asarray(1.5 + 0.125 * np.arange(np.size(v_)).reshape(np.shape(v_))) for k_, v_ in d_.items()} for d_ in m5.get_parameters()])
+            got = float((m5.nodes if kind == "node" else m5.edges).loc[outside[0], key])
+            if abs(got - mark) > 1e-9:
+                viol("WRITE_after_set", f"after integrate -> set({key}={mark}) on row {outside[0]} (outside the trainable selection) -> write_trainables the row holds {got}")
+            else:
+                res["counters"]["WRITE_after_set_ok"] = 1
     res["encode_s"] = time.time() - t0
     res["functions"] = sorted(set().union(*[i.functions for i in its])) if its else []
     for i in its:
